@@ -12,4 +12,7 @@ ASSUME \E f \in IntFields, rq \in MCReqSet : Required(f) /\ Outcomes(f, rq) = {E
 ASSUME \E f \in IntFields, rq \in MCReqSet : PresentTags(f, rq, TRUE) # {} /\ Outcomes(f, rq) = {Err}
 ASSUME \A s \in Sources \ {"json"} : \E f \in IntFields, rq \in MCReqSet :
           Cardinality(PresentTags(f, rq, TRUE)) >= 2 /\ f.tags[Winner(f, rq, TRUE)].src = s
+\* a present-but-empty higher-priority source beats a lower-priority value and satisfies `required`
+ASSUME \E f \in IntFields, rq \in MCReqSet : Required(f) /\ Cardinality(PresentTags(f, rq, TRUE)) >= 2
+          /\ Look(f.tags[Winner(f, rq, TRUE)], rq, TRUE) = <<"">> /\ ~Unconstrained(f, rq) /\ Val("1") \notin Outcomes(f, rq)
 =============================================================================
